@@ -38,6 +38,7 @@ type Scenario struct {
 	// menu, up to MenuDepth requests: enumerates operation sequences.
 	Menu      []ReqF
 	MenuDepth int
+	MenuFirst *ReqF // if set, the first request of the menu client is this one (splits a job)
 
 	snap      []byte // database image after Setup (Setup is deterministic and sequential)
 	snapClock int64
@@ -144,6 +145,10 @@ func (sc *Scenario) RunOnce(ch *vx.Chooser, keepLog bool) (res *ExecResult) {
 		if sc.unknownViolation(w) {
 			return
 		}
+		if w.Step > 3000 {
+			w.Violate("livelock", "the execution did not come to rest within 3000 steps: a request or sweep keeps issuing submissions (retry loop that never ends)")
+			return
+		}
 		opts := sc.options(w, st)
 		if len(opts) == 0 {
 			break
@@ -240,7 +245,11 @@ func (sc *Scenario) options(w *world.World, st *runState) []option {
 		}})
 	}
 	if mc := len(sc.Clients); len(sc.Menu) > 0 && st.next[mc] < sc.MenuDepth && (st.infl[mc] == nil || st.infl[mc].Done || st.infl[mc].Lost) {
-		for _, rf := range sc.Menu {
+		menu := sc.Menu
+		if st.next[mc] == 0 && sc.MenuFirst != nil {
+			menu = []ReqF{*sc.MenuFirst}
+		}
+		for _, rf := range menu {
 			rf := rf
 			opts = append(opts, option{fmt.Sprintf("arrive c%d %s", mc, rf.Label), 0, func() {
 				idx := st.next[mc]
